@@ -722,6 +722,7 @@ class Path:
             return
         if isinstance(s, ast.Assign):
             v = self.ev(s.value, env)
+            # (a generator object stored in a variable is checked when it is consumed: see as_iter_seq)
             for t in s.targets:
                 self.assign(t, v, rebind=isinstance(t, ast.Name))
             return
@@ -1538,7 +1539,15 @@ class Path:
 
     _last_iter_lazy = None
 
+    def check_generator_fresh(self, v):
+        snap = getattr(v, "gen", False)
+        if isinstance(snap, tuple):
+            cur = dict(self.env.heap)
+            if any(not cur[k].eq(a) for k, a in snap if k in cur):
+                raise Unsupported("generator created before a state change and consumed after it (lazy evaluation order is not modelled)")
+
     def as_iter_seq(self, v, line=0):
+        self.check_generator_fresh(v)
         if isinstance(v.s, OptS) and isinstance(v.s.inner, (SeqS, MapS)):
             if not self.env.spec:
                 self.guard(z3.Not(opt_is_none(v.t)), "TypeError", line)
